@@ -322,12 +322,57 @@ def _r5(ctx):
     ctx.floor(R, 1)
 
 
+def _r6(ctx):
+    R = "C23-R6"
+    ctx.doc(R, "the identifier pattern rejects exactly the operator words: the constant pattern is evaluated (CPython re, no repository code) on probe names that merely START with an operator word -- they are valid rank names in the verbose form and must stay valid in the concise one")
+    import re as _re
+    m = ctx.module(WL, R)
+    pat_expr = None
+    for st in m.tree.body:
+        if isinstance(st, ast.Assign) and norm(st.targets[0]) == "_ISL_REGEX":
+            pat_expr = st.value.args[0] if isinstance(st.value, ast.Call) and st.value.args else st.value
+    ctx.require(pat_expr is not None, R, "_ISL_REGEX definition")
+    ops = None
+    for st in m.tree.body:
+        if isinstance(st, ast.Assign) and norm(st.targets[0]) == "CLIST_OPERATORS" and isinstance(st.value, (ast.List, ast.Tuple, ast.Set)):
+            ops = [e.value for e in st.value.elts if isinstance(e, ast.Constant)]
+    if ops is None:
+        for mod in ctx.repo.modules.values():
+            for st in mod.tree.body:
+                if isinstance(st, ast.Assign) and norm(st.targets[0]) == "CLIST_OPERATORS" and isinstance(st.value, (ast.List, ast.Tuple, ast.Set)):
+                    ops = [e.value for e in st.value.elts if isinstance(e, ast.Constant)]
+    ctx.require(ops, R, "CLIST_OPERATORS literal")
+
+    def fold(e):
+        if isinstance(e, ast.Constant) and isinstance(e.value, str):
+            return e.value
+        if isinstance(e, ast.BinOp) and isinstance(e.op, ast.Add):
+            a, b = fold(e.left), fold(e.right)
+            return None if a is None or b is None else a + b
+        if isinstance(e, ast.Call) and isinstance(e.func, ast.Attribute) and e.func.attr == "join" and isinstance(e.func.value, ast.Constant) and e.args and norm(e.args[0]) == "CLIST_OPERATORS":
+            return e.func.value.value.join(ops)
+        return None
+    pat = fold(pat_expr)
+    ctx.require(pat is not None, R, f"cannot fold the pattern `{norm(pat_expr)[:80]}`")
+    try:
+        rx = _re.compile(pat)
+    except _re.error as e:
+        ctx.require(False, R, f"pattern does not compile: {e}")
+    for w in ops:
+        longer = w + "X1"
+        ctx.check(rx.fullmatch(longer) is not None, R, m, pat_expr, f"the pattern rejects `{longer}`, a name that merely starts with the operator word `{w}`: rank names such as LENGTH / NEXT / LEVEL are accepted by the verbose form and refused by the concise one",
+                  f"`{longer}` is an identifier")
+        ctx.check(rx.fullmatch(w) is None, R, m, pat_expr, f"the operator word `{w}` itself is accepted as an identifier", f"`{w}` is not an identifier")
+    ctx.floor(R, 4)
+
+
 def check(ctx):
     _r1(ctx)
     _r2(ctx)
     _r3(ctx)
     _r4(ctx)
     _r5(ctx)
+    _r6(ctx)
 
 
 VARIANTS = [
